@@ -28,7 +28,8 @@ static std::string reduced(const RCase& c) {
 		uint8_t* mem; if (posix_memalign((void**)&mem, 64, (size_t)c.mBlocks * 1024 + 64)) return "harness: alloc";
 		memset(mem, 0xA7, (size_t)c.mBlocks * 1024 + 64);
 		argon2_context ctx; memset(&ctx, 0, sizeof ctx);
-		ctx.out = nullptr; ctx.outlen = 0; ctx.pwd = (uint8_t*)c.pwd.data(); ctx.pwdlen = (uint32_t)c.pwd.size(); ctx.salt = (uint8_t*)c.salt.data(); ctx.saltlen = (uint32_t)c.salt.size();
+		ctx.out = nullptr; ctx.outlen = 0; static uint8_t nonNull[1]; const bool nullPwd = c.pwd.empty() && (c.salt[0] & 1);   // the empty password is legal both as (NULL, 0) and as (non-NULL, 0)
+		ctx.pwd = c.pwd.empty() ? (nullPwd ? nullptr : nonNull) : (uint8_t*)c.pwd.data(); ctx.pwdlen = (uint32_t)c.pwd.size(); ctx.salt = (uint8_t*)c.salt.data(); ctx.saltlen = (uint32_t)c.salt.size();
 		ctx.t_cost = c.passes; ctx.m_cost = c.mBlocks; ctx.lanes = 1; ctx.threads = 1; ctx.flags = ARGON2_DEFAULT_FLAGS; ctx.version = ARGON2_VERSION_NUMBER;
 		if (randomx_argon2_validate_inputs(&ctx) != ARGON2_OK) { free(mem); return "argon2 rejected parameters the cache initialisation shape allows"; }
 		argon2_instance_t inst; memset(&inst, 0, sizeof inst);
@@ -43,7 +44,7 @@ static std::string reduced(const RCase& c) {
 		if (!err.empty()) return err;
 	}
 	if (vh::st().replaying) return "";
-	vh::label("pwd-len:" + std::string(c.pwd.empty() ? "0" : c.pwd.size() <= 64 ? "1..64" : ">64")); vh::label("passes:" + std::to_string(c.passes)); vh::label(c.mBlocks <= 16 ? "m<=16" : c.mBlocks <= 256 ? "m<=256" : "m>256");
+	vh::label("pwd-len:" + std::string(c.pwd.empty() ? ((c.salt[0] & 1) ? "0(NULL pointer)" : "0(non-NULL pointer)") : c.pwd.size() <= 64 ? "1..64" : ">64")); vh::label("passes:" + std::to_string(c.passes)); vh::label(c.mBlocks <= 16 ? "m<=16" : c.mBlocks <= 256 ? "m<=256" : "m>256");
 	vh::nontrivial(vh::fnv(c.pwd.data(), c.pwd.size(), vh::fnv(c.salt.data(), c.salt.size(), c.mBlocks * 8 + c.passes)));
 	return "";
 }
@@ -70,7 +71,9 @@ static std::string full(const FCase& c) {
 		if (c.keys.size() > 1) seq.push_back(0);          // K1 -> K2 -> K1
 		for (size_t s = 0; s < seq.size() && err.empty(); ++s) {
 			size_t k = seq[s];
-			randomx_init_cache(cache, c.keys[k].data(), c.keys[k].size());
+			static const uint8_t nonNull[1] = {0};
+			const bool nullKey = c.keys[k].empty() && (c.keys[0].size() & 1);   // the empty key is legal both as (NULL, 0) and as (non-NULL, 0)
+			randomx_init_cache(cache, c.keys[k].empty() ? (nullKey ? nullptr : nonNull) : c.keys[k].data(), c.keys[k].size());
 			const uint8_t* mem = (const uint8_t*)randomx_get_cache_memory(cache);
 			if (memcmp(mem, model[k].data(), model[k].size()) != 0) {
 				size_t i = 0; while (mem[i] == model[k][i]) ++i;
@@ -82,7 +85,7 @@ static std::string full(const FCase& c) {
 		if (!err.empty()) return err;
 	}
 	if (vh::st().replaying) return "";
-	for (auto& k : c.keys) { vh::label("key-len:" + std::string(k.empty() ? "0" : k.size() <= 60 ? "1..60" : k.size() <= 64 ? "61..64" : ">64")); vh::nontrivial(vh::fnv(k.data(), k.size(), 10)); }
+	for (auto& k : c.keys) { vh::label("key-len:" + std::string(k.empty() ? ((c.keys[0].size() & 1) ? "0(NULL pointer)" : "0(non-NULL pointer)") : k.size() <= 60 ? "1..60" : k.size() <= 64 ? "61..64" : ">64")); vh::nontrivial(vh::fnv(k.data(), k.size(), 10)); }
 	return "";
 }
 
@@ -94,7 +97,7 @@ int main(int argc, char** argv) {
 			gen::oneOf(gen::element(2, 3, 4, 8, 16, 64, 512), gen::inRange(2, 65)), gen::inRange(1, 5)));
 	}, reduced);
 	vh::registerCheck<FCase>("full", [] {
-		return gen::resize(100, gen::apply([](Bytes a, Bytes b) { FCase c; c.keys = {a, b}; return c; }, vg::genKey(), vg::genKey()));
+		return gen::resize(100, gen::apply([](Bytes a, Bytes b) { FCase c; c.keys = {a, b, Bytes()}; return c; }   /* K1 -> K2 -> empty key -> K1 */, vg::genKey(), vg::genKey()));
 	}, full, true);
 	return vh::harnessMain(argc, argv);
 }
